@@ -116,10 +116,12 @@ def walk_two_vertices(v0, v1, layers):
                                                 [v0[axis - 1], v1[axis - 1]],
                                                 kind="linear")
     for value in range(v0[axis], v1[axis], delta):
+        # the band is a set of pixels: take the pixel the interpolated point falls into
+        # (as getpixel would), otherwise one pixel is collected under several float positions
         if axis == 0:
-            position = (value, interpolation(value))
+            position = (value, int(interpolation(value)))
         else:
-            position = (interpolation(value), value)
+            position = (int(interpolation(value)), value)
 
         vertices_to_return.update(get_layer_elements(position, layers))
     return vertices_to_return
